@@ -140,7 +140,21 @@ func (a *adversary) craftFor(r *run, n *cnode) (*interfaces.ConsensusRawMessage,
 	}
 	me := a.someSigner(r)
 	leader := a.leaderOf(h, v)
-	switch r.rnd.Intn(16) {
+	switch r.rnd.Intn(17) {
+	case 16: // non-canonical encodings: trailing bytes inside the signed header, signed as sent
+		b := a.knownBlock(r, h)
+		switch r.rnd.Intn(3) {
+		case 0:
+			return a.mkPaddedP(ref(protocol.LEAN_HELIX_PREPARE, h, v, b), me), "p_noncanonical"
+		case 1:
+			return a.mkPaddedC(ref(protocol.LEAN_HELIX_COMMIT, h, v, b), me), "c_noncanonical"
+		default:
+			tv := v
+			if tv == 0 {
+				tv = 1
+			}
+			return a.mkPaddedVC(voteD{ht: protocol.LEAN_HELIX_VIEW_CHANGE, inst: clusterInstance, h: h, v: tv, sender: me}, nil), "vc_noncanonical"
+		}
 	case 0: // proposal by whoever leads view v (real if Byzantine leads, else forged/replayed)
 		b := a.knownBlock(r, h)
 		name := "pp_leader"
